@@ -56,6 +56,16 @@ def build(c: dict[str, Any], dtype, via: str = "jnp"):
             return x / n
 
         return fn
+    if c["kind"] == "norm":
+        ax = c["axis"]
+
+        def fn(x):
+            t = jnp.abs(x) if c["p"] == 1 else x * x
+            s_ = t.sum(axis=ax, keepdims=bool(c["keep"])) if via == "method" else jnp.sum(t, axis=ax, keepdims=bool(c["keep"]))
+            n = jnp.sqrt(s_) if c["p"] == 2 else s_
+            return n + s_ if c["shared"] else n
+
+        return fn
     if c["kind"] == "halfsum":
         yv = np.array([[1, 2, 3], [3, 1, 2]], dtype)
         if c["int"]:
@@ -81,10 +91,10 @@ def run_cases(cases: list[dict[str, Any]]) -> dict[str, Any]:
     out: dict[str, Any] = {"n": 0, "spec_vs_jax": [], "problems": [], "export_failed": []}
     for rec in cases:
         c = rec["c"]
-        for dtype in ((np.int32,) if c["kind"] == "halfsum" and c["int"] else (np.float32,) if c["kind"] in ("lpnorm", "halfsum") or (c["kind"] == "reduce" and c["prod"] == "pow" and c["ex"][1] != 1) else (np.float32, np.int32)):
-          for via in (("method", "jnp", "lax") if c["kind"] == "reduce" else ("method", "jnp") if c["kind"] == "lpnorm" else ("jnp",)):
+        for dtype in ((np.int32,) if c["kind"] == "halfsum" and c["int"] else (np.float32,) if c["kind"] in ("lpnorm", "halfsum", "norm") or (c["kind"] == "reduce" and c["prod"] == "pow" and c["ex"][1] != 1) else (np.float32, np.int32)):
+          for via in (("method", "jnp", "lax") if c["kind"] == "reduce" else ("method", "jnp") if c["kind"] in ("lpnorm", "norm") else ("jnp",)):
               x = np.array(rec["x"], dtype)
-              if c["kind"] not in ("reduce", "lpnorm", "halfsum"):
+              if c["kind"] not in ("reduce", "lpnorm", "halfsum", "norm"):
                   x = x.reshape(-1)
               want = np.array(rec["want"], np.int64)
               if c["kind"] in ("lpnorm", "halfsum"):      # exact rationals <<num, den>>
